@@ -8,7 +8,7 @@ Driver entry for C10.
   judge line :  `first=<natlist> sent=<natlist> batches=<lists> exits=<lists> maxconc=<n> early=<0|1> drained=<0|1> [stuck=<0|1>]`
   output     :  `ok` | `fail <clause>`
 Delivery (`NGF.Model.Delivery`):
-  dmodel line:  `qs=<q|q|…> first=<natlist> ops=<op,…>`  q = `id:pass:get,…` (get f|n|e); ops: b<i> | d<i>:<ev> | g<i> | c | lh | la | lc | ld
+  dmodel line:  `qs=<q|q|…> first=<natlist> ops=<op,…>`  q = `id:pass:get,…` (get f|n|e|d|c; one entry per INVOCATION: a requeued request repeats its id); ops: b<i> | d<i>:<ev> | g<i> | c | lh | la | lc | ld
   output     :  `from=<lists> dropped=<lists> failed=<lists> skippedids=<lists> gets=<natlist> ctx=<0|1> skipped=<n>`
   djudge line:  `qs=… recv=<natlist> errs=<natlist> cancelled=<0|1> …`     output `ok` | `fail <clause>`
   pmodel line:  `objs=<id:get,…> lists=<items|E|…>`                        output `batch=<natlist|ERR> calls=<natlist>`
@@ -82,7 +82,10 @@ namespace NGF.Delivery
 open NGF.Proto NGF.Loop
 
 def parseGet (s : String) : Option GetRes :=
-  if s == "f" then some .found else if s == "n" then some .notFound else if s == "e" then some .error else none
+  -- e / d / c: a Get error that is plain / wraps context.DeadlineExceeded / wraps context.Canceled — the code treats
+  -- every error other than NotFound alike (returned, so that controller-runtime requeues the request)
+  if s == "f" then some .found else if s == "n" then some .notFound
+  else if s == "e" || s == "d" || s == "c" then some .error else none
 
 def parseReq (s : String) : Option Req :=
   match s.splitOn ":" with
